@@ -540,11 +540,15 @@ def check(repo, run, tier):
     g(unitrules.path_node_tables, repo, run, 'C18.R6')
     g(unitrules.path_tag_table, repo, run, 'C18.R8')
     g(unitrules.dump_entry, repo, run, 'C18.R7')
+    g(unitrules.dump_table, repo, run, 'C18.R7')
     g.done()
 
 
 def mutants(repo):
     return [
+        Mutant('excluded-metadata-none-by-default', lambda r: in_func(r, 'yaml.dump', "dumper.exclude_metadata = exclude_metadata or set()", "dumper.exclude_metadata = exclude_metadata and set()"), ['C18.R7']),
+        Mutant('dump-returns-text-only-with-output', lambda r: in_func(r, 'yaml.dump', "    if output is None:\n        return ret", "    if output is not None:\n        return ret"), ['C18.R7']),
+        Mutant('dump-leaves-own-file-open', lambda r: in_func(r, 'yaml.dump', "        close = True\n", "        close = False\n"), ['C18.R7']),
         Mutant('dump-ignores-the-stream', lambda r: in_func(r, 'yaml.dump', "yaml.dump(ConfigNode(nodes), stream=output, Dumper=get_dumper", "yaml.dump(ConfigNode(nodes), Dumper=get_dumper"), ['C18.R7']),
         Mutant('tuples-written-as-lists', lambda r: in_func(r, 'yaml._node_representer', "if isinstance(data, cabc.MutableSequence):", "if not isinstance(data, cabc.MutableSequence):"), ['C18.R2']),
         Mutant('explicit-source-file-ignored', lambda r: in_func(r, 'ConfigNode.__init__', "source_file if source_file is not None else", "source_file if source_file is None else"), ['C18.R10']),
